@@ -117,7 +117,8 @@ def forward(prog, rep):
         q = f"{CD}.{name}"
         fn = prog.func(q)
         rep.analysed(fn)
-        b = builder(prog, fn, inline=False)
+        # a shared forwarding helper of the class is looked through; the parameter lookup itself stays a call
+        b = builder(prog, fn, self_cls=prog.classes[CD], inline=True, no_inline=("_get_param_values",))
         ret = [s for s in cfg_of(fn).all_stmts() if isinstance(s, ast.Return)]
         t = b.term(ret[-1].value, ret[-1])
         first = [p for p in fn.positional_params if p != "self"][0]
